@@ -60,6 +60,7 @@ type Proxy struct {
 }
 
 var proxyCounter int64
+var bridgeCounter int64
 
 func newProxy(dir, network, tNet, tDial string) (*Proxy, error) {
 	n := atomic.AddInt64(&proxyCounter, 1)
@@ -271,6 +272,12 @@ func (p *Pair) Connect(ctx context.Context) (*varlink.Connection, error) {
 		exe, err := os.Executable()
 		if err != nil {
 			return nil, err
+		}
+		// every other bridge command line takes the program from the caller's environment (as "ssh host varlink bridge"
+		// style commands rely on PATH, HOME, SSH_AUTH_SOCK): the bridge runs in the environment of the process
+		if atomic.AddInt64(&bridgeCounter, 1)%2 == 0 {
+			os.Setenv("VERIF_BRIDGE_PROGRAM", exe)
+			return varlink.NewBridgeWithStderr(fmt.Sprintf("exec \"$VERIF_BRIDGE_PROGRAM\" --helper bridge %s '%s'", p.Proxy.Net, p.Proxy.Dial), io.Discard)
 		}
 		return varlink.NewBridgeWithStderr(fmt.Sprintf("exec '%s' --helper bridge %s '%s'", exe, p.Proxy.Net, p.Proxy.Dial), io.Discard)
 	}
